@@ -235,7 +235,7 @@ def twins(tier, pool, stats):
             if v is not None and v[0] != 'traceback-text-changed':
                 # line numbers are identical in the child (same file), but the process prefix differs
                 cs = stats[0]
-                cs.violations.setdefault('real-process:' + v[0], dict(count=1, choices=[kind, 2, [], 'plain'], detail=v[1]))
+                cs.violations.setdefault('real-process:' + v[0], dict(count=1, choices=[kind, 2, [], 'plain'], no_replay=True, detail=v[1]))
             n += 1
         a.send(None)
         p.join(30)
